@@ -99,7 +99,20 @@ fn canonical(x: &Any, m: &Bits) -> Option<String> {
     None
 }
 
+/// "from a raw vector, from an iterator": both give the canonical BitVector.
+fn check_bv_routes(ctx: &mut Ctx, bits: &BitsDesc) {
+    use std::iter::FromIterator;
+    let m = bits.model();
+    let c = Case::Chain { bits: bits.clone(), chain: vec![T::Bv, T::Bv], by_from: true };
+    let case = || serde_json::to_value(&c).unwrap();
+    let got = guard(|| canonical(&Any::Bv(BitVector::from_iter(m.to_bools())), &m));
+    ctx.expect(|| "convert[FromIterator<bool> -> BitVector]".to_string(), got, &None, case);
+}
+
 fn check_chain(ctx: &mut Ctx, bits: &BitsDesc, chain: &[T], by_from: bool) {
+    if by_from && chain == [T::Bv, T::Bv] {
+        return check_bv_routes(ctx, bits);
+    }
     let c = Case::Chain { bits: bits.clone(), chain: chain.to_vec(), by_from };
     let case = || serde_json::to_value(&c).unwrap();
     ctx.announce(case);
@@ -203,6 +216,7 @@ fn explore(ctx: &mut Ctx) {
             ctx.nontrivial(bits);
         }
         let big = m.len > 64;
+        check_bv_routes(ctx, bits);
         for ch in &from_chains {
             if big && !thorough && ch.len() > 3 {
                 continue;
